@@ -182,6 +182,12 @@ def run(rep, tier="quick", srcdir=None, only=None):
         rule_MP3(rep, prog)
     if want("C15-SB4"):
         rule_SB4(rep, prog)
+    if want("C06-AI3"):
+        # "merges made while the source is suspended are delivered after the matching resume": a source is a lane, its suspension accounting is the
+        # queue's (shared with C06)
+        from . import C06
+        from dqsa import trans as _trans
+        C06.rule_AI3(rep, prog, Q(srcdir), _trans.Extractor(prog, tier))
 
 
 MANIFEST = {
